@@ -92,7 +92,7 @@ Section StepStrand.
     intros SI Hd. pose proof SI as [C B]. apply declared_dom_in in Hd. destruct Hd as [x [Hx Hd]].
     apply in_map_iff in Hx. destruct Hx as [[x0 l] [E Hx]]. cbn in E. subst x0.
     destruct (dom_pair prev r acc x l SI Hx) as [i [j [H1 [H2 [H3 H4]]]]].
-    destruct (si_decl _ _ _ _ _ _ _ _ _ C x l Hx) as [Us [Ne Hl]].
+    destruct (si_decl _ _ _ _ _ _ _ _ _ C x l Hx) as [Us [Ne [Hl _]]].
     pose proof (si_reg _ _ _ _ _ _ _ _ _ C KindD ltac:(discriminate)) as RegD. cbn [cls_of ReaderSysA.cls_of dict_of] in RegD.
     pose proof (proj1 (si_sok _ _ _ _ _ _ _ _ _ C)) as I.
     destruct Hd as [->| ->].
@@ -102,6 +102,19 @@ Section StepStrand.
       split; [unfold obj_len; rewrite H3; cbn; destruct (Z.ltb_spec l 0); [lia | reflexivity]|].
       split; [rewrite RegD; exact H2|].
       destruct (live_reg ct _ j _ I H4 eq_refl) as [_ K]. exact K.
+  Qed.
+
+  (* a filed strand: its declaration and its object *)
+  Lemma strand_decl_heap prev r acc s j :
+    SInv prev r acc -> dlookup s (po_strands acc) = Some j ->
+    exists ds ids, assoc s (decl_strands prev) = Some ds /\ nonempty s = true /\
+      Forall2 (fun d i => dlookup d (po_domains acc) = Some i) ds ids /\
+      hget (heap (r_st r)) j = Some (strand_obj cs s ds ids).
+  Proof.
+    intros [C B] Hs. pose proof (dlookup_in_keys _ _ _ Hs) as Hk. apply (si_keys _ _ _ _ _ _ _ _ _ C KindS) in Hk.
+    cbn [declared] in Hk. destruct (assoc_some s _ Hk) as [ds Ea]. pose proof (assoc_in _ _ _ Ea) as Hin.
+    apply decl_strands_in in Hin. destruct (B _ Hin) as [i [ids [D1 [Hne [_ [D2 D3]]]]]].
+    rewrite Hs in D1. injection D1 as <-. exists ds, ids. auto.
   Qed.
 
   (* Strand(sequence, name = n) for a new name and a new sequence of domain objects *)
@@ -124,12 +137,13 @@ Section StepStrand.
 
   Theorem step_strand prev r acc line n ds :
     SInv prev r acc -> decode line = Ok (SComp n ds) ->
-    nonempty n = true -> ~ In n (map fst (decl_strands prev)) -> ~ In ds (map snd (decl_strands prev)) ->
+    nonempty n = true -> starred n = false ->
+    ~ In n (map fst (decl_strands prev)) -> ~ In ds (map snd (decl_strands prev)) ->
     Forall (fun d => In d (declared KindD prev)) ds ->
     exists r' acc', read_one ct G None (TList line) acc r = (r', Ok acc') /\
       SInv (prev ++ [SComp n ds]) r' acc' /\ Later r acc r' acc'.
   Proof.
-    intros SI Hdec Hne Hnew Hseq Hds. pose proof SI as [C B].
+    intros SI Hdec Hne Hust Hnew Hseq Hds. pose proof SI as [C B].
     set (st := r_st r). set (i := length (heap st)).
     pose proof (si_sok _ _ _ _ _ _ _ _ _ C) as OK. pose proof (proj1 OK) as I.
     assert (Hcs : cs < length ct) by apply (cls_of_lt ct cd cs cc cm cr CO KindS).
@@ -164,7 +178,7 @@ Section StepStrand.
       destruct (live_reg ct _ j o I Ho Hl) as [N1 _]. rewrite Hc in N1. fold st in RegS. rewrite RegS in N1.
       pose proof (dlookup_in_keys _ _ _ N1) as Hin. apply (si_keys _ _ _ _ _ _ _ _ _ C KindS) in Hin.
       cbn [declared] in Hin. apply in_map_iff in Hin. destruct Hin as [[n' ds'] [En Hin]]. cbn in En.
-      pose proof Hin as Hin2. apply decl_strands_in in Hin2. destruct (B _ Hin2) as [i' [ids' [D1 [_ D3]]]].
+      pose proof Hin as Hin2. apply decl_strands_in in Hin2. destruct (B _ Hin2) as [i' [ids' [D1 [_ [_ [_ D3]]]]]].
       rewrite En, N1 in D1. injection D1 as <-. pose proof (eq_trans (eq_sym Ho) D3) as Eo. injection Eo as ->.
       cbn [o_keys new_obj] in Hk. destruct Hk as [Hk|[]]. injection Hk as Hk _.
       apply Hseq. apply in_map_iff. exists (n', ds'). split; [exact Hk | exact Hin]. }
@@ -196,10 +210,11 @@ Section StepStrand.
     - reflexivity.
     - reflexivity.
     - reflexivity.
-    - intros C' L'. cbn [Built ReaderSysA.Built]. exists i, ids. split; [|split].
+    - intros C' L'. cbn [Built ReaderSysA.Built]. exists i, ids. split; [|split; [exact Hne|split; [exact Hust|split]]].
       + cbn [po_strands with_dict with_strands dict_of]. rewrite dlookup_dset, (proj2 (str_eqb_iff n n) eq_refl). reflexivity.
       + eapply Forall2_impl'; [|exact F]. cbn. tauto.
       + cbn [r_st hold heap]. rewrite heap_mk_new. apply hget_new.
+    - intros n0 names0 sst0 [].
     - eauto.
   Qed.
 End StepStrand.
